@@ -5,7 +5,7 @@
 From Coq Require Import List ZArith Permutation.
 From V Require Import Gen.Params FrameSorter.Model FrameSorter.InvCheck FrameSorter.Spec
   FrameSorter.ProofsInvOk FrameSorter.ProofsRun
-  RecvStream.Model RecvStream.Spec RecvStream.ProofsCrypto RecvStream.ProofsRecv.
+  RecvStream.Model RecvStream.Spec RecvStream.ProofsCrypto RecvStream.ProofsRecv RecvStream.ProofsRecv2 RecvStream.MgrRun RecvStream.ProofsMgr.
 Import ListNotations.
 Open Scope Z_scope.
 
@@ -227,3 +227,140 @@ Print Assumptions C03_crypto_example.
 Example C03_sorter_end_at_max_is_bug : snd (Push init [7] (MaxBC - 1) None) = Bug.
 Proof. vm_compute. reflexivity. Qed.
 Print Assumptions C03_sorter_end_at_max_is_bug.
+
+(** ** Round 3 *)
+
+(** RESET_STREAM / RESET_STREAM_AT rejection (any state that is not shut down): a final size
+    different from the established one, or below the highest offset received =>
+    FINAL_SIZE_ERROR; beyond the window => FLOW_CONTROL_ERROR; on any error nothing the reader
+    observes changes (sorter, current frame, read position, final offset, reset state). *)
+Theorem C03_reject_reset : forall s final reliable code s' e,
+  shutdown s = false -> handleResetStreamFrame s final reliable code = (s', e) ->
+  ((fc_final s = true /\ final <> fc_highest s) \/ (fc_final s = false /\ final < fc_highest s) -> e = FFinalSize) /\
+  (fc_final s = false /\ fc_highest s < final /\ fc_window s < final -> e = FFlowControl) /\
+  (e <> FNil ->
+     sorter s' = sorter s /\ rpos s' = rpos s /\ cur s' = cur s /\ rpif s' = rpif s /\ finalOffset s' = finalOffset s /\
+     cancelledRemotely s' = cancelledRemotely s /\ reliableSize s' = reliableSize s /\ cancelErr s' = cancelErr s).
+Proof. exact recv_reject_reset. Qed.
+Print Assumptions C03_reject_reset.
+
+(** RESET_STREAM_AT, in every reachable state: (1) a frame accepted while reading is not
+    cancelled locally is buffered — also after the reset, also when it straddles the reliable
+    size; (2) the reliable size is at most the final size; (3) while the read position is below
+    the reliable size and the next byte is there, Read delivers data (no error, no blocking);
+    at or above it Read returns the reset error (or the EOF already earned) without data;
+    and a StreamError is never returned below the reliable size. *)
+Theorem C03_reset_at_delivers_reliable : forall S w ops r,
+  0 <= w < MaxBC -> Forall rvalid ops -> rsrun S (rrun_init w) ops = Some r ->
+  let s := rr_st r in
+  (forall off n fin cb s', 0 <= off -> 0 <= n -> cancelledLocally s = false ->
+     handleStreamFrame s (slice S off n) off fin cb = (s', FNil) ->
+     rpos s' = rpos s /\ crest s' = crest s /\
+     forall x, off <= x < off + n -> rpos s + crest s <= x -> cov (queue (sorter s')) x) /\
+  (cancelledRemotely s = true -> fc_final s = true /\ 0 <= reliableSize s <= finalOffset s) /\
+  (forall n s' d e bug, 0 < n -> cancelledRemotely s = true -> cancelledLocally s = false -> shutdown s = false ->
+     Read s n = (s', d, e, bug) ->
+     (rpos s < reliableSize s -> available s -> 0 < len d /\ d = slice S (rpos s) (len d)) /\
+     (reliableSize s <= rpos s -> d = [] /\ (e = cancel_rerr s \/ e = EEOF)) /\
+     (forall c r0, e = ECancel c r0 -> reliableSize s' <= rpos s')).
+Proof. exact recv_reset_at_reach. Qed.
+Print Assumptions C03_reset_at_delivers_reliable.
+
+(** Liveness of Read in every reachable state: if the next byte is there (unread rest of the
+    current frame, or queued at the read position), or an error is latched (shutdown, local
+    cancel, effective reset), or the read position is the final size, Read does not park
+    (the model's would-block result); and if the next byte is there and no error is latched
+    it returns at least one byte. *)
+Theorem C03_read_live : forall S w ops r n s' d e bug,
+  0 <= w < MaxBC -> Forall rvalid ops -> rsrun S (rrun_init w) ops = Some r ->
+  0 < n -> Read (rr_st r) n = (s', d, e, bug) ->
+  (available (rr_st r) \/ latched (rr_st r) = true \/
+   (fc_final (rr_st r) = true /\ rpos (rr_st r) = finalOffset (rr_st r)) -> e <> EWouldBlock) /\
+  (available (rr_st r) -> latched (rr_st r) = false -> 0 < len d).
+Proof. exact recv_read_live. Qed.
+Print Assumptions C03_read_live.
+
+(** Liveness of Peek in every reachable state: it does not park when an error is latched,
+    and when all n requested bytes are there (unread rest of the current frame or queued
+    contiguously) it returns exactly those n bytes without an error. *)
+Theorem C03_peek_live : forall S w ops r n s' d e bug,
+  0 <= w < MaxBC -> Forall rvalid ops -> rsrun S (rrun_init w) ops = Some r ->
+  0 < n -> PeekS (rr_st r) n = (s', d, e, bug) ->
+  (latched (rr_st r) = true -> e <> EWouldBlock) /\
+  (latched (rr_st r) = false ->
+   (forall x, rpos (rr_st r) <= x < rpos (rr_st r) + n ->
+      x < rpos (rr_st r) + crest (rr_st r) \/ cov (queue (sorter (rr_st r))) x) ->
+   e = ENil /\ len d = n).
+Proof. exact recv_peek_live. Qed.
+Print Assumptions C03_peek_live.
+
+(** Buffers at the ReceiveStream level (currentFrameDone discipline): with distinct doneCb
+    ids, in every reachable state the id of every frame handed to the sorter is in exactly one
+    place — fired (PutBack called), attached to a queued entry, or owed for the current frame
+    (its unread bytes) —; frames that arrive after CancelRead are in none of them (never
+    released, never referenced: a missed recycling, not a violation). *)
+Theorem C03_stream_buffers_once : forall S w ops r,
+  0 <= w < MaxBC -> Forall rvalid ops -> NoDup (rop_cbs ops) -> rsrun S (rrun_init w) ops = Some r ->
+  Permutation (fired (sorter (rr_st r)) ++ live (queue (sorter (rr_st r))) ++ held (rr_st r)) (rr_acc r) /\
+  NoDup (fired (sorter (rr_st r)) ++ live (queue (sorter (rr_st r))) ++ held (rr_st r)) /\
+  incl (rr_acc r) (rop_cbs ops).
+Proof. exact recv_buffers_once. Qed.
+Print Assumptions C03_stream_buffers_once.
+
+(** ... and once io.EOF has been read nothing is queued and nothing is owed: every buffer
+    handed to the sorter has been released exactly once. *)
+Theorem C03_stream_buffers_all_released_at_eof : forall S w ops r,
+  0 <= w < MaxBC -> Forall rvalid ops -> NoDup (rop_cbs ops) -> rsrun S (rrun_init w) ops = Some r ->
+  rr_eof r = true ->
+  queue (sorter (rr_st r)) = [] /\ held (rr_st r) = [] /\
+  Permutation (fired (sorter (rr_st r))) (rr_acc r) /\ NoDup (fired (sorter (rr_st r))).
+Proof. exact recv_all_released_at_eof. Qed.
+Print Assumptions C03_stream_buffers_all_released_at_eof.
+
+(** Non-vacuity: RESET_STREAM_AT(final 193, reliable 100) arrives before a frame that
+    straddles the reliable size; the reliable bytes are delivered, then the reset error; both
+    buffers are released exactly once (the straddling frame is cut below the copy threshold,
+    so its buffer is released at once). *)
+Example C03_reset_at_example :
+  let ops := [ROFrame 0 50 false (Some 0); ROReset 193 100 7; ROFrame 40 100 false (Some 1); RORead 1000] in
+  Forall rvalid ops /\ NoDup (rop_cbs ops) /\
+  exists r, rsrun sbyte (rrun_init 300) ops = Some r /\ rr_out r = slice sbyte 0 140 /\
+            cancelledRemotely (rr_st r) = true /\ reliableSize (rr_st r) = 100 /\
+            fired (sorter (rr_st r)) = [1; 0] /\ rr_acc r = [0; 1] /\
+            exists s', Read (rr_st r) 10 = (s', [], ECancel 7 true, false).
+Proof.
+  cbv zeta. split; [|split].
+  - repeat constructor; solve [vm_compute; first [reflexivity | intro; discriminate]].
+  - vm_compute. repeat constructor; simpl; intuition discriminate.
+  - eexists. split; [vm_compute; reflexivity|]. repeat split; try (vm_compute; reflexivity).
+    eexists. vm_compute. reflexivity.
+Qed.
+Print Assumptions C03_reset_at_example.
+
+(** Crypto stream manager (crypto_stream_manager.go): CRYPTO frames are routed by encryption
+    level (0 Initial, 1 Handshake, 2 1-RTT) to independent crypto streams; for arbitrary byte
+    strings [Sf level], in every error-free history each level's GetCryptoData output is exactly
+    that level's string from offset 0 — frames of one level never reach another level's reader. *)
+Theorem C03_crypto_levels_exact : forall Sf ops r,
+  Forall mvalid ops -> mrsrun Sf mrun_init ops = Some r ->
+  mr_o0 r = slice (Sf 0) 0 (readPos (c_sorter (m_ini (mr_m r)))) /\
+  mr_o1 r = slice (Sf 1) 0 (readPos (c_sorter (m_hs (mr_m r)))) /\
+  mr_o2 r = slice (Sf 2) 0 (readPos (c_sorter (m_one (mr_m r)))).
+Proof. exact mgr_read_exact. Qed.
+Print Assumptions C03_crypto_levels_exact.
+
+Theorem C03_crypto_unexpected_level : forall Sf m l off n, l <> 0 -> l <> 1 -> l <> 2 ->
+  mcore Sf m (MFrame l off n) = (m, MUnexpectedLevel, [], false).
+Proof. exact mgr_unexpected_level. Qed.
+Print Assumptions C03_crypto_unexpected_level.
+
+Example C03_crypto_levels_example :
+  let ops := [MFrame 1 0 10; MFrame 0 0 4; MGet 1; MFrame 2 0 3; MGet 0; MDrop 0; MGet 2] in
+  Forall mvalid ops /\ exists r, mrsrun lbyte mrun_init ops = Some r /\
+    mr_o0 r = slice (lbyte 0) 0 4 /\ mr_o1 r = slice (lbyte 1) 0 10 /\ mr_o2 r = slice (lbyte 2) 0 3.
+Proof.
+  cbv zeta. split.
+  - repeat constructor; solve [vm_compute; first [reflexivity | intro; discriminate]].
+  - eexists. split; [vm_compute; reflexivity|]. repeat split; vm_compute; reflexivity.
+Qed.
+Print Assumptions C03_crypto_levels_example.
